@@ -211,6 +211,81 @@ theorem unknown_name_keyerror (K : Ctx) (mono : Bool) :
   · intro objs h
     simp [Ctx.intention, (namesToIdx_error _ _).mp h, bind, Except.bind]
 
+/-! ### the selection matters only as a set
+
+  Repetitions and the order of the given indexes are irrelevant for all four prime sets, and hence for
+  `extension_i` / `intention_i` on every backend.  (This is what entitles the correspondence check to hand the
+  selection over as a set / frozenset / list with repeated indexes and to judge the answer by the prime set of
+  the de-duplicated selection.  For the monotone *operators* the statement is false exactly on the `len()`-based
+  shortcut — hypotheses `hnotfull` / `Nodup` above — which the check therefore excludes.) -/
+
+theorem spec_ext_sel_as_set (t : Table) (B B' base : List Nat) (h : ∀ x, x ∈ B ↔ x ∈ B') :
+    Spec.ext t B base = Spec.ext t B' base := by
+  unfold Spec.ext
+  apply List.filter_congr
+  intro g _
+  rw [Bool.eq_iff_iff]
+  simp only [List.all_eq_true]
+  exact ⟨fun H a ha => H a ((h a).mpr ha), fun H a ha => H a ((h a).mp ha)⟩
+
+theorem spec_int_sel_as_set (t : Table) (A A' base : List Nat) (h : ∀ x, x ∈ A ↔ x ∈ A') :
+    Spec.int t A base = Spec.int t A' base := by
+  unfold Spec.int
+  apply List.filter_congr
+  intro a _
+  rw [Bool.eq_iff_iff]
+  simp only [List.all_eq_true]
+  exact ⟨fun H g hg => H g ((h g).mpr hg), fun H g hg => H g ((h g).mp hg)⟩
+
+theorem spec_extMono_sel_as_set (t : Table) (B B' base : List Nat) (h : ∀ x, x ∈ B ↔ x ∈ B') :
+    Spec.extMono t B base = Spec.extMono t B' base := by
+  unfold Spec.extMono
+  apply List.filter_congr
+  intro g _
+  rw [Bool.eq_iff_iff]
+  simp only [List.any_eq_true]
+  exact ⟨fun ⟨a, ha, hv⟩ => ⟨a, (h a).mp ha, hv⟩, fun ⟨a, ha, hv⟩ => ⟨a, (h a).mpr ha, hv⟩⟩
+
+theorem spec_intMono_sel_as_set (t : Table) (A A' base : List Nat) (h : ∀ x, x ∈ A ↔ x ∈ A') :
+    Spec.intMono t A base = Spec.intMono t A' base := by
+  unfold Spec.intMono
+  apply List.filter_congr
+  intro a _
+  rw [Bool.eq_iff_iff]
+  simp only [List.all_eq_true, Bool.or_eq_true, List.contains_eq_mem, decide_eq_true_eq]
+  exact ⟨fun H g hg => (H g hg).imp (h g).mp id, fun H g hg => (H g hg).imp (h g).mpr id⟩
+
+/-- `extension_i` answers the same for two selections with the same elements (any order, any repetitions). -/
+theorem extension_i_sel_as_set (K : Ctx) (hwf : K.table.WF) (B B' : List Nat) (base : Option (List Nat))
+    (hB : InRange B K.nAttributes) (hbase : BaseInRange base K.nObjects) (h : ∀ x, x ∈ B ↔ x ∈ B') :
+    K.extensionI B base = K.extensionI B' base := by
+  have hB' : InRange B' K.nAttributes := fun x hx => hB x ((h x).mpr hx)
+  rw [extension_i_exact K hwf B base hB hbase, extension_i_exact K hwf B' base hB' hbase]
+  exact spec_ext_sel_as_set _ _ _ _ h
+
+/-- `intention_i` answers the same for two selections with the same elements (any order, any repetitions). -/
+theorem intention_i_sel_as_set (K : Ctx) (hwf : K.table.WF) (A A' : List Nat) (base : Option (List Nat))
+    (hA : InRange A K.nObjects) (hbase : BaseInRange base K.nAttributes) (h : ∀ x, x ∈ A ↔ x ∈ A') :
+    K.intentionI A base = K.intentionI A' base := by
+  have hA' : InRange A' K.nObjects := fun x hx => hA x ((h x).mpr hx)
+  rw [intention_i_exact K hwf A base hA hbase, intention_i_exact K hwf A' base hA' hbase]
+  exact spec_int_sel_as_set _ _ _ _ h
+
+/-- the monotone operators away from the `len()` shortcut: same elements, same answer -/
+theorem extension_monotone_i_sel_as_set (K : Ctx) (hwf : K.table.WF) (B B' : List Nat) (base : Option (List Nat))
+    (hB : InRange B K.nAttributes) (hbase : BaseInRange base K.nObjects) (h : ∀ x, x ∈ B ↔ x ∈ B')
+    (hn : B.length ≠ K.nAttributes) (hn' : B'.length ≠ K.nAttributes) :
+    K.extensionMonotoneI B base = K.extensionMonotoneI B' base := by
+  have hB' : InRange B' K.nAttributes := fun x hx => hB x ((h x).mpr hx)
+  rw [extension_monotone_i_exact K hwf B base hB hbase hn, extension_monotone_i_exact K hwf B' base hB' hbase hn']
+  exact spec_extMono_sel_as_set _ _ _ _ h
+
+/-- the `len()` shortcut is the (only) place where a repeated index changes the answer of the monotone extension:
+    a concrete witness (two attributes, the selection `[0, 0]` has the length of the attribute set). -/
+example : (⟨.lists, ⟨[[true, false], [false, true]], 2⟩, [], []⟩ : Ctx).extensionMonotoneI [0, 0] none = [0, 1]
+    ∧ (⟨.lists, ⟨[[true, false], [false, true]], 2⟩, [], []⟩ : Ctx).extensionMonotoneI [0] none = [0] := by
+  decide
+
 /-! ### non-vacuity: the hypotheses are met by a concrete, non-trivial context -/
 
 private def exK : Ctx :=
